@@ -57,9 +57,19 @@ _orig_canonical = pytd_utils.CanonicalOrdering
 
 
 def _hooked(n):
-  # harness-side observation point (nothing in /repo is modified): remember what goes in and what comes out
+  # harness-side observation point (nothing in /repo is modified).  Everything is evaluated NOW: the lookup
+  # caches (_name2item) of the returned classes are filled lazily by later Lookup() calls and are part of repr/keys.
+  from pytype.pytd import pytd  # pylint: disable=import-outside-toplevel
   out = _orig_canonical(n)
-  _captured.append((n, out))
+  is_unit = isinstance(n, pytd.TypeDeclUnit)
+  if is_unit or len(_captured) < 300:
+    names = set(pytd_visitors.CanonicalOrderingVisitor().visit_class_names)
+    probs, stats = c04_units.monitor(n, out, names)
+    if is_unit:
+      again = _orig_canonical(out)
+      if c04_units.proj(again) != c04_units.proj(out):
+        probs.append(("not-idempotent", "", ""))
+    _captured.append((is_unit, probs, stats))
   return out
 
 
@@ -122,24 +132,13 @@ def analyse(src, loader, out_path, full):
   res["n_logged"] = len(ret.context.errorlog)
   res["oracle"] = error_oracle(errs)
   # hypotheses of the theorems, on what the pipeline really fed to / got from CanonicalOrdering
-  names = set(pytd_visitors.CanonicalOrderingVisitor().visit_class_names)
   mon = []
   stats = {}
-  from pytype.pytd import pytd  # pylint: disable=import-outside-toplevel
-  units = [c for c in _captured if isinstance(c[0], pytd.TypeDeclUnit)]
-  others = [c for c in _captured if not isinstance(c[0], pytd.TypeDeclUnit)]
-  # types canonicalised on the way into error messages (pretty printer): hypotheses must hold there too
-  for inp, outp in others[:300]:
-    p1, _ = c04_units.monitor(inp, outp, names)
-    mon += [("message-type",) + p for p in p1]
-  for inp, outp in units[-1:]:
-    p1, s1 = c04_units.monitor(inp, outp, names)
-    mon += [("unit",) + p for p in p1]
-    # idempotence on the real object
-    again = _orig_canonical(outp)
-    if c04_units.proj_nocache(again) != c04_units.proj_nocache(outp):
-      mon.append(("unit", "not-idempotent", "", ""))
-    stats = s1
+  units = [c for c in _captured if c[0]]
+  for is_unit, probs, st in _captured:
+    mon += [("unit" if is_unit else "message-type",) + tuple(p) for p in probs]
+    if is_unit:
+      stats = st
   res["monitor"] = [list(m)[:4] for m in mon[:5]]
   res["monitor_stats"] = stats
   res["captured"] = len(_captured)
